@@ -41,6 +41,11 @@ type Config struct {
 	PoolSeed   uint64   `json:"pool_seed,omitempty"`
 	Faults     []string `json:"faults,omitempty"` // enabled fault kinds (informational; the scripts are explicit)
 	Variant    string   `json:"variant,omitempty"`
+	// SmallMaps: catalogue values get maps with at most one entry. Set for
+	// scheduled (task) plans: go-json encodes map entries in Go's randomised
+	// iteration order before sorting them, so with larger maps the sequence of
+	// yield points (and with it the schedule) would differ from run to run.
+	SmallMaps bool `json:"small_maps,omitempty"`
 }
 
 type Sched struct {
@@ -54,6 +59,7 @@ type Point struct {
 	At   uint64 `json:"at,omitempty"`
 	Site uint32 `json:"site,omitempty"`
 	Occ  uint32 `json:"occ,omitempty"`
+	Task int    `json:"task"`
 	To   int    `json:"to"`
 }
 
